@@ -52,6 +52,11 @@ NA = {
 
 # id -> (category, text, note, technique, design_ref)
 CLAIMED = {
+ "C52": ("exploration",
+         "Seeded histories of random/1, maybe/0 and random_integer/3 calls after set_random(seed(S)) with S over the whole integer range; each history runs as one conjunction, again on the same machine, on a second machine with another history, and split over separate queries with unrelated (interrupted) work in between. Per call the range / failure / error conditions are checked inside Prolog with exact integers; per history the value sequences must be identical in all four executions.",
+         "The generator is a per-Machine field: concurrent machines share nothing, so the thread variant of the design is not run. Statistical quality of the generator is not a property here.",
+         "deterministic simulation: the simulator owns the entropy source (seed), replays call histories across machines, histories and injected interrupts",
+         "DESIGN.md §3 C52"),
  "C32": ("exploration",
          "Real OS threads interning atoms through the real AtomTable/arcu code, with exactly one thread runnable at a time: a baton-passing scheduler parks every thread at 11 yield sites hooked into AtomTable::build_with / Atom::as_ptr / AtomTable::new and picks the next one from the case's explicit choice list (uniform random) or PCT priorities; the table starts with a 64..4096-byte block so that growth and both RCU replaces happen repeatedly. Oracle after every operation and at the end: text<->atom is a bijection over everything any thread obtained, every atom reads back the text it was interned with (immediately, later from other threads, and at the end), one table for all threads, no panic, no deadlock, all threads finish within the step budget. Seeded sampling of schedules; the schedule of a failure is stored as data and replays exactly.",
          "Interleavings are explored at the hooked yield sites under sequential consistency; weak-memory effects and preemption inside arcu are not modelled. shuttle/loom are unsuitable here (arcu's thread_local epoch counters).",
